@@ -8,6 +8,11 @@ def build(repo, tier, seed):
     b["assumptions"].append("Dataset: evaluates to callback(implementation), both evaluated under mix(mix(default options, caller's options), pre-set options), proved compositionally: the temporaries "
                             "of Dataset._composed are used through the C05 specifications proved for WithOptions, Cached, Logged, Computation and Apply (spec_c05.tower_contracts), "
                             "effects that do not fail (region F15) and a sound cache backend (B-sound)")
+    from . import frame_state
+    b["syntactic"] += frame_state.obligations(repo)
+    b["assumptions"].append("no hidden state: outside constructors and the declared mutators no method of a class reaching the labrea ABCs stores into its receiver, its class or a module global, "
+                            "changes a container held in a field in place, or is wrapped in a memoising decorator; no function changes a module-level container except the declared owners of the "
+                            "runtime and lock tables (AST frame, groups <Class>:frame and <module>:globals-frame)")
     from . import builders_c05
     bd_vcs, bd_syn, bd_und = builders_c05.build(repo)
     b["vcs"] += bd_vcs
